@@ -43,7 +43,7 @@ def vpow (v : List α) (b : α) : List α := v.map (fun x => pow x b)
 /-- `abs(v)` (VectorTools.h:1314): `std::abs` -/
 def vabs (v : List α) : List α := v.map abs
 
-/-! ### NumTools scalar helpers (NumTools.h:31-88, 120-140) -/
+/-! ### NumTools scalar helpers (NumTools.h:31-81, 109-132) -/
 
 /-- `NumTools::abs` (NumTools.h:31): `a < 0 ? -a : a` -/
 def ntAbs (a : α) : α := if ltb a zero then -a else a
@@ -57,20 +57,20 @@ def ntMin (a b : α) : α := if ltb a b then a else b
 def ntSign2 (a b : α) : α := ntAbs a * ntSign b
 /-- `NumTools::sqr` (NumTools.h:81) -/
 def ntSqr (a : α) : α := a * a
-/-- `NumTools::swap` (NumTools.h:108) -/
+/-- `NumTools::swap` (NumTools.h:109) -/
 def ntSwap {β : Type} (a b : β) : β × β := (b, a)
-/-- `NumTools::shift(a, b, c)` (NumTools.h:115): `a = b; b = c` -/
+/-- `NumTools::shift(a, b, c)` (NumTools.h:116): `a = b; b = c` -/
 def ntShift3 {β : Type} (_a b c : β) : β × β := (b, c)
-/-- `NumTools::shift(a, b, c, d)` (NumTools.h:120): `a = b; b = c; c = d` -/
+/-- `NumTools::shift(a, b, c, d)` (NumTools.h:121): `a = b; b = c; c = d` -/
 def ntShift4 {β : Type} (_a _b c d : β) : β × β × β := (_b, c, d)
 
-/-- `NumTools::fact` (NumTools.h:127) on a non-negative whole number `n`:
+/-- `NumTools::fact` (NumTools.h:128) on a non-negative whole number `n`:
 `(n == 0) ? 1 : n * fact(n - 1)` -/
 def factNat : Nat → α
   | 0 => ofInt 1
   | n + 1 => ofInt ((n + 1 : Nat) : Int) * factNat n
 
-/-- `NumTools::logFact` (NumTools.h:131): `(n == 0) ? 0 : log(n) + logFact(n - 1)` -/
+/-- `NumTools::logFact` (NumTools.h:132): `(n == 0) ? 0 : log(n) + logFact(n - 1)` -/
 def logFactNat : Nat → α
   | 0 => ofInt 0
   | n + 1 => log (ofInt ((n + 1 : Nat) : Int)) + logFactNat n
@@ -158,8 +158,7 @@ def countValues (v : List β) : List (β × Nat) :=
   v.foldl (fun m x => mapUpdate lt x bump m) []
 
 /-- the push-back-if-absent loop shared by `vectorUnion` (both overloads) and `extend` -/
-def pushNew (u : List β) (v : List β) : List β :=
-  v.foldl (fun u x => if !(contains eq u x) then u ++ [x] else u) u
+def pushNew (u : List β) (v : List β) : List β := vectorUnionOrig eq u v
 
 /-- `vectorUnion(vector of vectors)` (VectorTools.h:1846): starts from the empty vector -/
 def vectorUnionList (vs : List (List β)) : List β := vs.foldl (pushNew eq) []
